@@ -254,11 +254,11 @@ func crEvalInner(cs crCase) *crOut {
 	case "project":
 		o.texts["root"] = in
 		root := jschema.New("root", in)
-		for n, t := range cs.Types {
-			o.texts[n] = []byte(t)
-			n, t := n, t
-			o.op("project.AddType", in, func() error { return root.AddType(n, jschema.New(n, t)) })
-		}
+		eachSupport(cs.Types, func(n, t string) bool {
+			o.texts[strings.TrimPrefix(n, "rule:")] = []byte(t)
+			o.op("project.AddType", in, func() error { return regSupport(root, n, t) })
+			return true
+		})
 		if cs.Self {
 			o.op("project.AddType-self", in, func() error { return root.AddType("root", root) })
 		}
